@@ -1,5 +1,6 @@
 import L21.Proofs.LefRTLib
 import L21.Proofs.LefDec
+import L21.Proofs.LefImage
 /-
 C05 — LEF write-then-read returns the library that was written: statement level.
 
@@ -50,6 +51,35 @@ theorem c05_writer_gate_matches_reader (l : Lib) (toks : List Tok) (hw : wLib l 
     (∀ m ∈ l.macros, m.source.isSome = true → v5p4.lt (l.version.getD ⟨58, 1⟩) = false) :=
   (wLib_eq l toks hw).2
 
+/-- **C05, the reader's image.**  Every library the reader model returns — for ANY token sequence,
+    valid LEF or not — is well-formed (all of `libOk` except the condition on extension data) and is
+    accepted by the writer model: "writing it succeeds". -/
+theorem c05_reader_image_writable (ts : List Tok) (l : Lib) (h : libBody (ts.length + 1) ⟨58, 1⟩ {} ts = some l) :
+    libOkNoExt l = true ∧ ∃ toks, wLib l = some toks := by
+  have h0 : lInv ⟨58, 1⟩ {} := by
+    refine ⟨by decide, rfl, ?_, ?_⟩
+    · intro h; cases h
+    · intro m hm; cases hm
+  obtain ⟨ver', hok, _, hn, hs⟩ := libBody_img _ _ _ _ _ h h0
+  subst_vars
+  exact ⟨hok, wLib_some l hn hs⟩
+
+/-- **C05 at full strength, token level** (partial only in the side condition on extension data):
+    for every token sequence the reader accepts, the library it returns is written by the writer
+    and read back equal.  `hext` says that re-lexing each BEGINEXT block's stored data gives its
+    tokens back; it is decidable, checked by the run, and not derived from the lexer theorems. -/
+theorem c05_read_write_read_partial (ts : List Tok) (l : Lib) (h : libBody (ts.length + 1) ⟨58, 1⟩ {} ts = some l)
+    (hext : l.extensions.all extOk = true) :
+    ∃ toks, wLib l = some toks ∧ libBody (toks.length + 1) ⟨58, 1⟩ {} toks = some l := by
+  obtain ⟨hok, toks, hw⟩ := c05_reader_image_writable ts l h
+  exact ⟨toks, hw, lib_roundtrip l toks hw (libOk_of_noExt l hok hext)⟩
+
+/-- … and without extensions no side condition is left -/
+theorem c05_read_write_read_noext (ts : List Tok) (l : Lib) (h : libBody (ts.length + 1) ⟨58, 1⟩ {} ts = some l)
+    (hext : l.extensions = []) :
+    ∃ toks, wLib l = some toks ∧ libBody (toks.length + 1) ⟨58, 1⟩ {} toks = some l :=
+  c05_read_write_read_partial ts l h (by simp [hext])
+
 /-! non-vacuity: a library with every kind of definition meets the hypotheses -/
 def demoPin : Pin :=
   { name := ['A'], ports := [⟨none, [⟨['M', '1'], [.shape (.rect none ⟨⟨0, 0⟩, ⟨0, 0⟩⟩ ⟨⟨15, 1⟩, ⟨-2, 0⟩⟩),
@@ -72,5 +102,10 @@ def demoLib : Lib :=
 
 example : libOk demoLib = true ∧ (wLib demoLib).isSome = true := by decide +kernel
 example : decWf ⟨-123400, 4⟩ := by unfold decWf; decide
+/-- the demo library is itself in the reader's image: reading its written form returns it -/
+example : ∃ toks, wLib demoLib = some toks ∧ libBody (toks.length + 1) ⟨58, 1⟩ {} toks = some demoLib :=
+  match h : wLib demoLib with
+  | some toks => ⟨toks, rfl, lib_roundtrip demoLib toks h (by decide +kernel)⟩
+  | none => absurd h (by decide +kernel)
 
 end L21.Lef
